@@ -30,6 +30,23 @@ Theorem C20_error_stops_printing : forall cs e rest,
 Proof. exact error_stops_printing. Qed.
 Print Assumptions C20_error_stops_printing.
 
+(* the exit status of the process: main()'s error block and the `?` of the call arm are regenerated from main.rs *)
+From VLG Require Import CliGen.
+Theorem C20_process_exit_status : forall debug more l,
+  cli_exit main_exit_on_error call_propagates_errors debug (snd (call_outcome more l)) = 0 <->
+  snd (call_outcome more l) = true.
+Proof.
+  intros debug more l.
+  assert (P : call_propagates_errors = true) by (vm_compute; reflexivity). rewrite P.
+  apply cli_exit_zero_iff. intro d. destruct d; vm_compute; eexists; (split; [reflexivity | discriminate]).
+Qed.
+Print Assumptions C20_process_exit_status.
+
+Theorem C20_debug_flag_does_not_change_the_status : forall debug ok,
+  cli_exit main_exit_on_error call_propagates_errors debug ok = cli_exit main_exit_on_error call_propagates_errors false ok.
+Proof. intros. apply cli_exit_debug_irrelevant. intro d. destruct d; vm_compute; reflexivity. Qed.
+Print Assumptions C20_debug_flag_does_not_change_the_status.
+
 (* tie: the functions this property's model describes by hand (not by translation) still have the pinned text; an
    edit to one of them breaks this obligation and sends the check searching for a failing input *)
 From VLG Require Import ShapeGen.
